@@ -133,12 +133,46 @@ theorem c05_close_wins (noise login : Bool) (evs : List Ev) :
   exact ⟨⟨h1.1, h1.2.1⟩, ⟨h2.1, h2.2.2⟩⟩
 
 /-- **C05 (one connect attempt per object).**  `start_connection` on an object whose start phase has
-left the initial state is refused at once (RuntimeError) and changes nothing else; likewise
-`finish_connection` outside socket-opened. -/
+been used — the lifecycle has left the initial state, OR an earlier call is still in progress (the
+state only advances when the phase completes) — is refused at once (RuntimeError) and changes
+nothing else; likewise `finish_connection` outside socket-opened or while a finish is in progress.
+So a call is accepted only in the initial state with no start phase begun. -/
 theorem c05_once (s : State) :
-    (s.st ≠ .init → step s .callStart = { s with refused := s.refused + 1 }) ∧
-    (s.st ≠ .sockOpen → step s .callFinish = { s with refused := s.refused + 1 }) := by
-  refine ⟨?_, ?_⟩ <;> intros <;> simp_all [step, aRefused]
+    (s.st ≠ .init ∨ s.start ≠ .idle → step s .callStart = { s with refused := s.refused + 1 }) ∧
+    (s.st ≠ .sockOpen ∨ s.finish ≠ .idle → step s .callFinish = { s with refused := s.refused + 1 }) := by
+  refine ⟨?_, ?_⟩ <;> intro h <;> by_cases h1 : s.st = .init <;> by_cases h2 : s.st = .sockOpen <;>
+    simp_all [step, aRefused]
+
+/-- … and an accepted call begins the phase: afterwards the phase is no longer idle, so by `c05_once`
+every later call of the same phase on this object is refused whatever happens in between
+(`c05_phase_never_idle_again`). -/
+theorem c05_accept_begins (s : State) :
+    (s.st = .init → s.start = .idle → (step s .callStart).start ≠ .idle) ∧
+    (s.st = .sockOpen → s.finish = .idle → (step s .callFinish).finish ≠ .idle) := by
+  refine ⟨?_, ?_⟩ <;> intro h1 h2 <;> simp [step, h1, h2, aStartBegin, aFinishBegin]
+
+/-- a phase that has begun never becomes idle again, along any chain of primitive actions -/
+theorem life_used (a b : State) (l : Life a b) :
+    (a.start ≠ .idle → b.start ≠ .idle) ∧ (a.finish ≠ .idle → b.finish ≠ .idle) := by
+  cases l <;> (rename_i h2 h3; constructor <;> intro h <;> simp_all)
+
+theorem reach_used (a b : State) (r : Reach a b) :
+    (a.start ≠ .idle → b.start ≠ .idle) ∧ (a.finish ≠ .idle → b.finish ≠ .idle) := by
+  induction r with
+  | refl => exact ⟨id, id⟩
+  | snoc _ p ih =>
+    obtain ⟨l1, l2⟩ := life_used _ _ (prim_life _ _ p)
+    exact ⟨fun h => l1 (ih.1 h), fun h => l2 (ih.2 h)⟩
+
+/-- **C05 (one connect attempt per object, for every history).**  Once a `start_connection` call has
+been accepted, every later `start_connection` on the same object — after ANY events in between,
+whether the first call is still in progress, has failed, was cancelled or has succeeded — is refused
+and changes nothing but the refusal count; the same for `finish_connection`. -/
+theorem c05_phase_never_idle_again (s : State) (evs : List Ev) :
+    (s.start ≠ .idle → step (run s evs) .callStart = { run s evs with refused := (run s evs).refused + 1 }) ∧
+    (s.finish ≠ .idle → step (run s evs) .callFinish = { run s evs with refused := (run s evs).refused + 1 }) := by
+  obtain ⟨u1, u2⟩ := reach_used s _ (run_reach s evs)
+  exact ⟨fun h => (c05_once _).1 (Or.inr (u1 h)), fun h => (c05_once _).2 (Or.inr (u2 h))⟩
 
 /-- … and the lifecycle never returns to a state in which a phase would be accepted again: once the
 state has left `initialized` it never comes back, and once the finish phase has been used
@@ -177,5 +211,12 @@ example : let s := run {} [.callStart, .resolved true, .wakeStart, .sockDone tru
 example : let s := run {} [.callStart, .resolved true, .wakeStart, .sockDone true, .wakeStart, .callStart, .callFinish,
     .connMade, .wakeFinish, .callFinish, .callStart]
     s.refused = 3 ∧ s.st = .hsDone := by decide +kernel
+
+/-- a second `start_connection` while the first is still resolving is refused (the repaired duplicate call) -/
+example : let s : State := run {} [.callStart, .callStart]
+    s.refused = 1 ∧ s.start = .awaitResolve ∧ s.st = .init := by decide +kernel
+/-- … and so is a second `finish_connection` while the first waits for the transport -/
+example : let s : State := run {} [.callStart, .resolved true, .wakeStart, .sockDone true, .wakeStart, .callFinish, .callFinish]
+    s.refused = 1 ∧ s.finish = .awaitTransport ∧ s.st = .sockOpen := by decide +kernel
 
 end Esp.C05
